@@ -94,6 +94,9 @@ type VCall struct {
 	Result   datatransfer.ValidationResult
 	Err      error
 	Seq      int64
+	// RegisteredFor is the voucher type of the registration through which the call arrived
+	// (only set when the validator was registered with For)
+	RegisteredFor string
 }
 
 // RecValidator is a programmable recording RequestValidator. Outcome(kind, n) gives the result of the
@@ -449,3 +452,30 @@ func (f FakeState) ResponderPaused() bool               { return false }
 func (f FakeState) BothPaused() bool                    { return false }
 func (f FakeState) SelfPaused() bool                    { return false }
 func (f FakeState) Stages() *datatransfer.ChannelStages { return &datatransfer.ChannelStages{} }
+
+// For returns a view of the validator that stamps every call with the voucher type it was
+// registered for (VCall.RegisteredFor), so that a workload that registers v.For(t) for each type t
+// can tell WHICH registration the library consulted.
+func (v *RecValidator) For(typ string) datatransfer.RequestValidator { return typedValidator{v, typ} }
+
+type typedValidator struct {
+	v   *RecValidator
+	typ string
+}
+
+func (t typedValidator) ValidatePush(chid datatransfer.ChannelID, sender peer.ID, voucher datamodel.Node, baseCid cid.Cid, selector datamodel.Node) (datatransfer.ValidationResult, error) {
+	return t.v.call(VCall{Kind: "push", Chid: chid, Peer: sender, Voucher: voucher, BaseCid: baseCid, Selector: selector, RegisteredFor: t.typ})
+}
+func (t typedValidator) ValidatePull(chid datatransfer.ChannelID, receiver peer.ID, voucher datamodel.Node, baseCid cid.Cid, selector datamodel.Node) (datatransfer.ValidationResult, error) {
+	return t.v.call(VCall{Kind: "pull", Chid: chid, Peer: receiver, Voucher: voucher, BaseCid: baseCid, Selector: selector, RegisteredFor: t.typ})
+}
+func (t typedValidator) ValidateRestart(chid datatransfer.ChannelID, st datatransfer.ChannelState) (datatransfer.ValidationResult, error) {
+	t.v.mu.Lock()
+	probe := t.v.Probe
+	t.v.mu.Unlock()
+	if probe != nil {
+		probe("validator.restart", st)
+	}
+	sv, _ := ViewOf(st)
+	return t.v.call(VCall{Kind: "restart", Chid: chid, State: sv, RegisteredFor: t.typ})
+}
